@@ -56,7 +56,10 @@ def run_rhs2(nx, ny, dx, dy, data, recon, bc, flux):
     except Exception as ex:
         raise O.FlowdynRaised("%s: %s" % (type(ex).__name__, str(ex)[:120]))
     pL, pR, fl = model.calls[-1]
-    return np.array(R[0], dtype=float), pL[0], pR[0], fl[0]
+    Rr = np.array(R[0], dtype=float)
+    if not (np.all(np.isfinite(Rr)) and np.all(np.isfinite(pL[0])) and np.all(np.isfinite(pR[0])) and np.all(np.isfinite(fl[0]))):
+        raise O.FlowdynRaised("non-finite face state / residual from finite data")
+    return Rr, pL[0], pR[0], fl[0]
 
 
 def bcj(bc):
